@@ -66,6 +66,16 @@ def scan_c15(repo):
                 ok_sites += len(re.findall(r'\bto_u?int32\s*\(', body))
                 i = arm_end
         i += 1
+    # parseInt's radix (builtins/global.rs) is a ToInt32 site too
+    gp = os.path.join(repo, 'src/interpreter/builtins/global.rs')
+    if os.path.exists(gp):
+        gt = open(gp).read()
+        for m in re.finditer(r'let radix = [^;]*;', gt):
+            if re.search(r'to_number\s*\(\s*\)\s*\)?\s*as\s+i32', m.group(0)):
+                flagged.append({'site': 'src/interpreter/builtins/global.rs:%d' % (gt.count('\n', 0, m.start()) + 1), 'op': 'parseInt radix',
+                                'text': m.group(0)[:80]})
+            elif 'to_int32' in m.group(0):
+                ok_sites += 1
     return {'rule': 'operands of Op::{BitAnd,BitOr,BitXor,LShift,RShift,URShift,BitNot} arms are produced by to_int32/to_uint32, '
                     'not by a saturating `to_number() as i32/u32` cast',
             'arms_found': sorted(found_ops), 'conforming_sites': ok_sites, 'flagged_sites': flagged,
@@ -100,7 +110,20 @@ def scan_c10(repo):
             'narrowing_sites': n_sites, 'flagged_sites': flagged}
 
 
-SCANS = {'C15': scan_c15, 'C10': scan_c10}
+def scan_c20(repo):
+    """every compile_* statement/expression entry point sets the current span before emitting (informational)"""
+    n_set = n_emit = 0
+    for rel in ('src/compiler/compile_expr.rs', 'src/compiler/compile_stmt.rs', 'src/compiler/compile_pattern.rs'):
+        p = os.path.join(repo, rel)
+        if os.path.exists(p):
+            t = open(p).read()
+            n_set += len(re.findall(r'\.set_span\(', t))
+            n_emit += len(re.findall(r'\.emit\(', t))
+    return {'rule': 'informational: number of set_span / emit sites in compile_* (the set_span discipline itself is not verifiable here)',
+            'set_span_sites': n_set, 'emit_sites': n_emit, 'flagged_sites': []}
+
+
+SCANS = {'C15': scan_c15, 'C10': scan_c10, 'C20': scan_c20}
 
 
 def run(pid, P, repo, wr, work, tier, seed):
